@@ -22,6 +22,11 @@ def run(ctx):
     # ready future (value, exception, dropped promise) or that threw: every kind of waiter must see "ready" and the result
     for k, pre in enumerate(["exc_throw", "val", "drop", "exc"] if not ctx.quick else ["exc_throw", ["val", "drop", "exc"][ctx.seed % 3]]):
         fl.run_mixes(ctx, rp, [([], ["co", "bl"]), ([], ["cb", "hv"])], max_paths=200 if ctx.quick else None, tagp="pre%d_" % k, pre=pre)
+    # the same for the reference instantiation: future<int&>::set_value(lvalue) stores the address (state value_ref built ready)
+    rpr = fl.build_ref(ctx)
+    for k, pre in enumerate(["val", "exc", "drop"] if not ctx.quick else ["val"]):
+        fl.run_mixes(ctx, rpr, [([], ["co", "hv"]), ([], ["bl", "cb"])][:1 if ctx.quick else 2], max_paths=100 if ctx.quick else None,
+                     tagp="preref%d_" % k, pre=pre)
     # finest grain (FutureFine.tla): the thread-local code between two atomic operations is a step of its own, so a plain
     # access on the wrong side of an atomic operation (result stored after the resolving exchange, a node touched after its
     # waiter was released, ...) is exposed to the other threads; small mixes
